@@ -439,3 +439,7 @@ Proof.
   unfold welch_pvalues, welch_genes. rewrite !map_length, !combine_length, map_length, combine_length.
   repeat split; lia.
 Qed.
+
+Lemma welch_p_empty_cluster : forall D c1 c2 H lo hi b c, 0 < H -> lo <= H <= hi ->
+  c_n c1 <= 0 \/ c_n c2 <= 0 -> welch_p H lo hi b (welch_gene D c1 c2) c = 2 * H.
+Proof. intros D c1 c2 H lo hi b c HH Hc Hn. rewrite (welch_empty_cluster D c1 c2 Hn). exact (welch_p_empty H lo hi b c HH Hc). Qed.
